@@ -164,8 +164,20 @@ def make_fxns(scn, log=None):
     return trans_time, rec_time, joint
 
 
+def shifted(scn, ref, sh):
+    """the same scenario with every finite absolute time moved by -sh (negative start times); delays and
+    durations are unchanged.  The reference outcome moves with it: the semantics is shift invariant."""
+    if not sh:
+        return scn, ref
+    mv = lambda x: x if x >= INF else x - sh
+    s2 = dict(scn, tmin=mv(scn["tmin"]), tmax=mv(scn["tmax"]))
+    r2 = dict(ref, inf=[mv(x) for x in ref["inf"]], rec=[mv(x) for x in ref["rec"]])
+    return s2, r2
+
+
 def run_all(scn, ref, EoN, modes=("sep", "joint", "arr", "perc", "fast", "gin")):
     """All interfaces for one scenario; returns list of (interface, kind, detail)."""
+    scn, ref = shifted(scn, ref, scn.get("shift", 0))
     probs = []
     n = scn["n"]
     nodes = list(range(1, n + 1))
